@@ -198,10 +198,20 @@ func withBundleProps(r *prng.R, m *rec.Rec) *rec.Rec {
 	return m
 }
 
+var errNoiseProps = map[string]bool{"C01": true, "C02": true, "C03": true, "C04": true, "C05": true, "C06": true, "C09": true, "C12": true, "C13": true, "C15": true, "C16": true, "C17": true, "C18": true, "C19": true}
+
 func init() {
 	// slices handed to the library by the builders are cut from larger arrays with a canary behind them: a library
 	// function that appends to or writes past a caller's slice is reported whatever property is being checked
-	fw.BeforeCase = func(c *fw.Ctx) { lib.ResetCanaries() }
+	fw.BeforeCase = func(c *fw.Ctx) {
+		// one case in eight of the single-goroutine checks is preceded by other use of the library that fails
+		// (errorNoise): error paths must not leave anything behind that a later, unrelated call picks up
+		if errNoiseProps[c.Prop.ID] && (uint32(c.Index)*2246822519>>11)%8 == 0 {
+			errorNoise(prng.Derive(c.Seed, 4040, uint64(c.Index)), 3)
+			c.Count("cases_preceded_by_failing_library_calls", 1)
+		}
+		lib.ResetCanaries()
+	}
 	fw.AfterCase = func(c *fw.Ctx) {
 		if msg := lib.CheckCanaries(); msg != "" {
 			c.Violation("case", "argument-overwritten", "memory-behind-a-caller-slice", msg)
